@@ -6,6 +6,7 @@ pub mod case;
 pub mod crash;
 pub mod dump;
 pub mod elem;
+pub mod layouts;
 pub mod outcome;
 pub mod plan;
 pub mod telem;
@@ -29,6 +30,10 @@ pub mod sse {
         use super::*;
         include!("interp_set.rs");
     }
+    pub mod lay {
+        use super::*;
+        include!("interp_lay.rs");
+    }
 }
 
 /// Interpreters instantiated against the portable (cfg(miri)) twin of /repo.
@@ -48,6 +53,10 @@ pub mod gen {
         use super::*;
         include!("interp_set.rs");
     }
+    pub mod lay {
+        use super::*;
+        include!("interp_lay.rs");
+    }
 }
 
 pub mod specs;
@@ -61,6 +70,8 @@ pub fn run_case(case: &case::Case) -> outcome::Outcome {
         ("table", _) => gen::table::run_case(case),
         ("set", 0) => sse::set::run_case(case),
         ("set", _) => gen::set::run_case(case),
+        ("lay", 0) => sse::lay::run_case(case),
+        ("lay", _) => gen::lay::run_case(case),
         _ => panic!("unknown case kind {}", case.kind),
     }
 }
